@@ -77,6 +77,12 @@ def registry_connect_disconnect_inverse(ctx, repo, rule):
 
 def run(ctx):
     rm = REModel(ctx.repo)
+    # a 'subscribe' / 'unsubscribe' message executed once is never executed again by a rewind: both are uncacheable and act as implicit
+    # checkpoints (seed C18-b: a replayed 'subscribe' adds a second, never-removed subscription)
+    from . import c04
+
+    q.relabelled(ctx, "C04.D3", "C18.D3", c04.d3_uncacheable_table, rm)
+    q.relabelled(ctx, "C04.D2", "C18.D3", c04.d2_implicit_checkpoints, rm)
     repo = rm.repo
     ctx.explanation = (
         "Decided: D1 no shared id is disconnected: every return of CallbackRegistry.connect either returns an id minted by that very "
